@@ -290,6 +290,16 @@ def program(rnd, cpp):
     return "\n".join(out) + "\n"
 
 
+def witnesses():
+    """Minimal inputs of failures found earlier by the random families (kept so that every tier exercises them)."""
+    return [
+        ("witness-huge-array-of-empty", ".h", "struct E {};\nstruct S { struct E a[0xFFFFFFFFFFFFFFFFULL]; };\n"),
+        ("witness-function-typedef-member", ".hpp", "typedef void (F)(void);\nstruct S { F m; };\n"),
+        ("witness-integer-complex", ".h", "long _Complex g;\nint _Complex h;\n"),
+        ("witness-function-typedef-member-union", ".hpp", "typedef float **(T0)(short **);\nunion U { bool a0[1]; T0 m2; };\n"),
+    ]
+
+
 def annotations():
     """Doc-comment annotations (`<div rustbindgen ...>`) in odd places: -> list of (shape, extension, text)."""
     D = '/// <div rustbindgen %s></div>\n'
